@@ -463,7 +463,13 @@ pub fn run(args: &Args, rec: &mut Recorder) {
         cfg.multiline_comments = false;
         cfg.a2ml = false;
         // RESERVED items in position order: their reordering on write is C01's known finding, not C16's business
-        cfg.canonical_positions = true;
+        // (the other position-restricted items may stand in any order: the writer reorders them, also
+        // across the boundary between an include file and the file that includes it)
+        cfg.canonical_positions = rng.coin();
+        cfg.reserved_ascending = true;
+        if !cfg.canonical_positions {
+            rec.bump("trees.with_shuffled_record_layout_positions");
+        }
         let mut gen = DocGen::new(&g, cfg);
         let mut doc = gen.gen_doc(rng);
         let max_level = rng.urange(1, 3);
